@@ -391,6 +391,7 @@ pub fn supervisor_main(info: &CheckInfo, total_runs: u64, tier: Tier, verif_seed
     let mut deaths = 0u64;
     let mut slow_not_reproduced = 0u64;
     let mut stopped_early = false;
+    let mut stopped_for_violations = false;
     let mut confirmed_by_class: BTreeMap<String, u64> = BTreeMap::new();
     let mut unconfirmed_by_class: BTreeMap<String, u64> = BTreeMap::new();
     while live > 0 {
@@ -435,6 +436,20 @@ pub fn supervisor_main(info: &CheckInfo, total_runs: u64, tier: Tier, verif_seed
                                 e.3 = size;
                             }
                             let _ = i;
+                            // a change that breaks a whole class of cases (every case of one template runs
+                            // into a meter, say) makes the batch many times slower and adds nothing to the
+                            // verdict: after 300 violating runs of one signature that is not a listed
+                            // finding, the batch stops early
+                            let sig = j.get("signature").and_then(|x| x.as_str()).unwrap_or("?");
+                            if !stopped_early && viols.get(sig).map_or(false, |e| e.0 >= 300) && known.matches(id, sig).is_none() {
+                                stopped_early = true;
+                                stopped_for_violations = true;
+                                for k in 0..slots.len() {
+                                    let _ = slots[k].child.kill();
+                                    slots[k].done = true;
+                                    slots[k].current = None;
+                                }
+                            }
                         }
                     }
                     Some("SAMPLE") => {
@@ -667,7 +682,9 @@ pub fn supervisor_main(info: &CheckInfo, total_runs: u64, tier: Tier, verif_seed
             }
         }
     }
-    if stopped_early {
+    if stopped_for_violations {
+        println!("{} {}: stopped early after 300 violating runs of one signature ({} of {} runs done)", id, tier.name(), done_runs, total_runs);
+    } else if stopped_early {
         println!("{} {}: stopped early after {} worker deaths ({:?} confirmed, {:?} further deaths counted without confirmation)", id, tier.name(), deaths, confirmed_by_class, unconfirmed_by_class);
     } else if done_runs != total_runs {
         harness_errors.push(format!("{} of {} runs completed", done_runs, total_runs));
